@@ -332,6 +332,17 @@ func apiRelations(q, df string, e *expr.Expression) string {
 			return "DIFF:C11:acceptance-differs-under-two-unused-default-fields"
 		}
 	}
+	// the options handed to Parse belong to the caller: a slice with spare capacity must come back as it went in
+	{
+		full := append(spare(lucene.WithDefaultField("zq1"), 4), lucene.WithDefaultField("zq2"))
+		head := full[:1]
+		r1, e1 := lucene.Parse(q, full...)
+		lucene.Parse(q, head...)
+		r2, e2 := lucene.Parse(q, full...)
+		if (e1 == nil) != (e2 == nil) || (e1 == nil && r1 != nil && r2 != nil && showExpr(r1) != showExpr(r2)) {
+			return "DIFF:C14:Parse-writes-into-the-options-slice-of-its-caller"
+		}
+	}
 	if e == nil {
 		return "ok"
 	}
@@ -357,6 +368,8 @@ func apiRelations(q, df string, e *expr.Expression) string {
 	}
 	return "ok"
 }
+
+func spare[T any](x T, capacity int) []T { return append(make([]T, 0, capacity), x) }
 
 // lexer with a script of Next (N) / Peek (P) calls
 func observeLex(in, script string) []string {
